@@ -6,6 +6,7 @@ import (
 	"encoding/json"
 	"flag"
 	"fmt"
+	"go/types"
 	"os"
 	"path/filepath"
 	"runtime/debug"
@@ -27,6 +28,50 @@ func main() {
 	absFn := flag.String("abs", "", "debug: abstractly interpret pkg:Func with symbolic arguments and print every path")
 	dumpPinned := flag.Bool("dump-pinned", false, "print internal/core/pinned_data.go for the tree at -repo (the reference vocabulary of identifiers)")
 	flag.Parse()
+	if os.Getenv("ORYX_LOOPVARS") != "" {
+		P, err := core.Load(core.Config{Dir: *repo})
+		if err != nil {
+			fmt.Println(err)
+			os.Exit(2)
+		}
+		n := 0
+		for fn := range P.AllFuncs {
+			if !core.InModule(fn) {
+				continue
+			}
+			n++
+			for _, e := range core.LoopVarEscapes(fn) {
+				fmt.Println(core.QualName(fn), e.Name, P.InstrPos(e.Store))
+			}
+		}
+		fmt.Println("functions scanned:", n)
+		return
+	}
+	if os.Getenv("ORYX_ALIAS") != "" {
+		P, err := core.Load(core.Config{Dir: *repo})
+		if err != nil {
+			fmt.Println(err)
+			os.Exit(2)
+		}
+		for fn := range P.AllFuncs {
+			if !core.InModule(fn) || fn.Synthetic != "" {
+				continue
+			}
+			for _, r := range core.Returns(fn) {
+				for i, v := range r.Results {
+					if types.TypeString(v.Type(), nil) != "[]byte" {
+						continue
+					}
+					for _, o := range core.SliceOrigins(v) {
+						if o.Kind != "fresh" && o.Kind != "param" {
+							fmt.Println(core.QualName(fn), i, o.Kind, o.Desc, P.InstrPos(r))
+						}
+					}
+				}
+			}
+		}
+		return
+	}
 	if *dumpPinned {
 		P, err := core.Load(core.Config{Dir: *repo})
 		if err != nil {
